@@ -340,3 +340,114 @@ func TestC12Reference(t *testing.T) {
 	rec := evid.New("C12/reference")
 	pbt.Enumerate(t, "C12", rec, []*C12RefCase{{}}, checkC12Ref)
 }
+
+// ---- rejection of planted duplicates, by class of the fields involved (generator run only) ----
+
+type C12RejectCase struct {
+	Base   string `json:"base"`
+	Kind   string `json:"kind"`   // field-number | msgtype
+	FirstC string `json:"first"`  // class of the field that keeps its number: enum | plain | bool-values
+	SecC   string `json:"second"` // class of the field that receives the duplicate
+	A      int    `json:"a"`
+	B      int    `json:"b"`
+}
+
+func fieldClass(tm *schema.TypeMap, f *schema.FieldDef) string {
+	cast, _ := tm.Cast(f.Type)
+	switch {
+	case len(f.Values) > 0 && cast == "Bool":
+		return "bool-values"
+	case len(f.Values) > 0:
+		return "enum"
+	}
+	return "plain"
+}
+
+func genC12Reject(t *rapid.T) *C12RejectCase {
+	classes := []string{"enum", "plain", "bool-values"}
+	return &C12RejectCase{
+		Base:   rapid.SampledFrom([]string{"fix44", "fix44", "fix44", "big"}).Draw(t, "base"),
+		Kind:   rapid.SampledFrom([]string{"field-number", "field-number", "field-number", "msgtype"}).Draw(t, "kind"),
+		FirstC: rapid.SampledFrom(classes).Draw(t, "first"),
+		SecC:   rapid.SampledFrom(classes).Draw(t, "second"),
+		A:      rapid.IntRange(0, 100000).Draw(t, "a"),
+		B:      rapid.IntRange(0, 100000).Draw(t, "b"),
+	}
+}
+
+func checkC12Reject(c *C12RejectCase, rec *evid.Rec) (vs []pbt.Violation) {
+	base, tm, err := loadBase(c.Base)
+	if err != nil {
+		return []pbt.Violation{pbt.V("harness", "%v", err)}
+	}
+	s := base.Clone()
+	what := ""
+	if c.Kind == "msgtype" {
+		a := s.Messages[c.A%len(s.Messages)]
+		b := s.Messages[c.B%len(s.Messages)]
+		if a == b {
+			b = s.Messages[(c.B+1)%len(s.Messages)]
+		}
+		what = fmt.Sprintf("message %s gets msgtype %s of message %s", b.Name, a.MsgType, a.Name)
+		b.MsgType = a.MsgType
+	} else {
+		pick := func(class string, n int, not *schema.FieldDef) *schema.FieldDef {
+			var cand []*schema.FieldDef
+			for _, f := range s.Fields {
+				if fieldClass(tm, f) == class && f != not {
+					cand = append(cand, f)
+				}
+			}
+			if len(cand) == 0 {
+				return nil
+			}
+			return cand[n%len(cand)]
+		}
+		a := pick(c.FirstC, c.A, nil)
+		b := pick(c.SecC, c.B, a)
+		if a == nil || b == nil {
+			rec.Hist("skipped:no-field-of-class")
+			return nil
+		}
+		what = fmt.Sprintf("%s field %s (position %d) gets number %s of %s field %s", c.SecC, b.Name, indexOf(s, b), a.Number, c.FirstC, a.Name)
+		b.Number = a.Number
+	}
+	w, err := NewWork("rej")
+	if err != nil {
+		return []pbt.Violation{pbt.V("harness", "%v", err)}
+	}
+	defer w.Remove()
+	_, failed, err := w.Generate(s, tm, "fixgenpkg")
+	if err != nil {
+		return []pbt.Violation{pbt.V("harness", "%v", err)}
+	}
+	rec.Extra("programs", 1)
+	rec.Extra("disagreements_checked", 1)
+	rec.Case(evid.FPs(c.Base+what), true)
+	rec.Hist("reject:" + c.Kind)
+	if c.Kind != "msgtype" {
+		rec.Hist("reject-first:" + c.FirstC)
+		rec.Hist("reject-second:" + c.SecC)
+	}
+	if rec.WantSample() {
+		rec.Sample(map[string]any{"base": c.Base, "planted": what, "rejected": failed})
+	}
+	if !failed {
+		vs = append(vs, pbt.V("duplicate-accepted:"+c.Kind+":"+c.FirstC, "base %s: %s, but the generator accepted the schema", c.Base, what))
+	}
+	return vs
+}
+
+func indexOf(s *schema.Schema, f *schema.FieldDef) int {
+	for i, g := range s.Fields {
+		if g == f {
+			return i
+		}
+	}
+	return -1
+}
+
+func TestC12Reject(t *testing.T) {
+	rec := evid.New("C12/reject")
+	pbt.Run(t, "C12", rec, genC12Reject, checkC12Reject)
+}
